@@ -1569,3 +1569,24 @@ def b_nc_pairs(tier, rnd):
     cases = [(a, b) for a in pool for b in pool] + [(a, None) for a in pool[:5]]
     return {"rule": "all ordered pairs of 28 containers (incl. the same pitches under other spellings: C#/Db, B#-4/C-5) and "
                     "comparison with None", "cases": cases}
+
+
+@battery("instr_nc")
+def b_instr_nc(tier, rnd):
+    from mingus.containers.note import Note
+    from mingus.containers.note_container import NoteContainer
+    from mingus.containers import instrument as I
+    instrs = [I.Instrument(), I.Piano(), I.MidiInstrument()]
+    g = I.Instrument()
+    g.set_range((Note("C", 3), Note("C", 6)))
+    instrs.append(g)
+    cases = []
+    for inst in instrs:
+        for _ in range(60):
+            nc = NoteContainer()
+            nc.notes = [Note(rnd.choice(["C", "B#", "Cb", "F#", "A", "E"]), rnd.choice([0, 2, 3, 5, 6, 8, 9])) for _j in range(rnd.choice([0, 1, 2, 3, 4]))]
+            cases.append((inst, nc))
+        for n in (Note("B#", 2), Note("C", 3), Note("Cb", 3), Note("C", 6), Note("B#", 5), Note("C#", 6), Note("C", 9)):
+            cases.append((inst, n))
+    return {"rule": "4 instruments (one with a narrow custom range) x 60 seeded containers of 0..4 notes in any order, with the out-of-"
+                    "range note in any position, + single notes around the range ends (B#/Cb spellings)", "cases": cases}
